@@ -65,7 +65,7 @@ Proof.
   apply (for_each_inv' Inv _ _ _ _ Hrun); [exact H0|].
   intros j [wa Xwa] [wb Xwb] Hin HI Hb. unfold Inv in *; simpl in *.
   rewrite Forall_forall in Hws. specialize (Hws j Hin).
-  destruct (cd_body_spec _ _ _ _ _ _ _ _ _ _ Hws Hb) as (Xj & old & step & g & v & _ & _ & _ & _ & Hp & -> & _).
+  destruct (cd_body_spec _ _ _ _ _ _ _ _ _ _ Hws Hb) as (Xj & old & step & g & v & lcj & _ & _ & _ & _ & _ & _ & Hp & -> & _).
   apply Forall_set_nth; [assumption|]. eapply prox_feasible; eauto.
 Qed.
 End Epoch.
